@@ -6,3 +6,4 @@ import "github.com/gcash/bchutil/bech32"
 
 var hookBechPolymod func([]int) int = bech32.VerifPolymod
 var hookBechHrpExpand func(string) []int = bech32.VerifHrpExpand
+var hookBechVerify func(string, []byte) bool = bech32.VerifVerifyChecksum
